@@ -1,10 +1,11 @@
 /-
-  `GHEManager.find_design` for the flat searches as the composition the manager performs, interpreted
-  from the regenerated statement list `Gen.findDesignOps` (manager.py):
-  `self._search = design.find_design()` (Bisection1D.search), `ghe.compute_g_functions()` (abstract:
-  it replaces the one-height g-function by the three-height one, i.e. the search-stage excess
-  `E k ·` by the sizing objective `f k ·`), `ghe.size(HYBRID)` (Report.size, interpreted from the
-  regenerated statement list of GHE.size).  The two timer statements do not touch the design.
+  `GHEManager.find_design` as the composition the manager performs, interpreted from the
+  regenerated statement list `Gen.findDesignOps` (manager.py):
+  `self._search = design.find_design()` (one of the four search classes; abstract here: any
+  `SearchRes`), `ghe.compute_g_functions()` (abstract: it replaces the one-height g-function by the
+  three-height one, i.e. the search-stage excess `E k ·` by the sizing objective `f k ·`),
+  `ghe.size(HYBRID)` (Report.size, interpreted from the regenerated statement list of GHE.size).
+  The two timer statements do not touch the design.
 -/
 import GHEVerif.Model.Search
 import GHEVerif.Model.Report
@@ -13,38 +14,48 @@ import GHEVerif.Gen.Report
 namespace GHEVerif.Pipeline
 open GHEVerif GHEVerif.Search GHEVerif.Report
 
-/-- What the manager ends with: the selected candidate, the search path, and the GHE state. -/
-structure Design where
-  field : Nat
-  path : Path
-  st : GState
-  deriving Repr, DecidableEq
-
-inductive Result where
-  | design (d : Design)
+/-- What `design.find_design()` hands back: the selected candidate (identified by `α`: an index, a
+    (list, index) pair, a RowWise selection), the height the search left the GHE at, extra
+    information `β` (the path of the 1D search), or the exception that escaped. -/
+inductive SearchRes (α β : Type) where
+  | selected (k : α) (h : Rat) (info : β)
   | valueError
   | pyError (e : PyErr)
-  deriving Repr, DecidableEq
+  deriving DecidableEq
+
+/-- What the manager ends with: the selected candidate, the search information, and the GHE state. -/
+structure DesignG (α β : Type) where
+  field : α
+  path : β
+  st : GState
+  deriving DecidableEq
+
+inductive ResultG (α β : Type) where
+  | design (d : DesignG α β)
+  | valueError
+  | pyError (e : PyErr)
+  deriving DecidableEq
 
 /-- The manager's state while `find_design` runs: `_search` (none before the search), whether the
     three-height g-function has been computed, and whether `return 0` was reached. -/
-structure MState where
-  search : Option Design
+structure MState (α β : Type) where
+  search : Option (DesignG α β)
   threeHeights : Bool
   returned : Bool
-  deriving Repr, DecidableEq
+
+variable {α β : Type}
 
 /-- One statement of `find_design`.  `f k` is the sizing objective of candidate `k` on the
     three-height g-function, `E k` the search-stage excess (one-height g-function): `size` before
     `compute_g_functions` would size on `E`.  `_search.ghe` before the search is an AttributeError. -/
-def mgrStep (counts : List Nat) (E : Nat → Rat → Rat) (cfg : Cfg)
-    (f : Nat → Rat → Rat) (its : Nat → List Rat) (brent : Nat → Rat)
-    (s : MState) : MgrOp → Except Result MState
+def mgrStep (search : SearchRes α β) (E : α → Rat → Rat) (minH maxH : Rat)
+    (f : α → Rat → Rat) (its : α → List Rat) (brent : α → Rat)
+    (s : MState α β) : MgrOp → Except (ResultG α β) (MState α β)
   | .startTimer => .ok s
   | .stopTimer => .ok s
   | .ret0 => .ok { s with returned := true }
   | .search =>
-    match (bisect1D counts E cfg).1 with
+    match search with
     | .valueError => .error .valueError
     | .pyError e => .error (.pyError e)
     -- the search leaves the GHE initialised (not simulated) at height h
@@ -58,39 +69,82 @@ def mgrStep (counts : List Nat) (E : Nat → Rat → Rat) (cfg : Cfg)
     | none => .error (.pyError .other)
     | some d =>
       let obj := if s.threeHeights then f d.field else E d.field
-      match size obj cfg.minH cfg.maxH (its d.field) (brent d.field) d.st with
+      match size obj minH maxH (its d.field) (brent d.field) d.st with
       | .error e => .error (.pyError e)
       | .ok st => .ok { s with search := some { d with st := st } }
 
-def runMgr (counts : List Nat) (E : Nat → Rat → Rat) (cfg : Cfg)
-    (f : Nat → Rat → Rat) (its : Nat → List Rat) (brent : Nat → Rat) :
-    List MgrOp → MState → Except Result MState
+def runMgr (search : SearchRes α β) (E : α → Rat → Rat) (minH maxH : Rat)
+    (f : α → Rat → Rat) (its : α → List Rat) (brent : α → Rat) :
+    List MgrOp → MState α β → Except (ResultG α β) (MState α β)
   | [], s => .ok s
   | op :: ops, s =>
     if s.returned then .ok s else
-    match mgrStep counts E cfg f its brent s op with
+    match mgrStep search E minH maxH f its brent s op with
     | .error r => .error r
-    | .ok s' => runMgr counts E cfg f its brent ops s'
+    | .ok s' => runMgr search E minH maxH f its brent ops s'
 
 /-- `GHEManager.find_design()` (all properties set): the regenerated statements, run in order. -/
-def findDesign1D (counts : List Nat) (E : Nat → Rat → Rat) (cfg : Cfg)
-    (f : Nat → Rat → Rat) (its : Nat → List Rat) (brent : Nat → Rat) : Result :=
-  match runMgr counts E cfg f its brent Gen.findDesignOps { search := none, threeHeights := false, returned := false } with
+def findDesignG (search : SearchRes α β) (E : α → Rat → Rat) (minH maxH : Rat)
+    (f : α → Rat → Rat) (its : α → List Rat) (brent : α → Rat) : ResultG α β :=
+  match runMgr search E minH maxH f its brent Gen.findDesignOps { search := none, threeHeights := false, returned := false } with
   | .error r => r
   | .ok s =>
     match s.search with
     | none => .pyError .other
     | some d => .design d
 
-/-- The composition the statements amount to (proved equal in Lemmas/Report). -/
-def findDesign1DSpec (counts : List Nat) (E : Nat → Rat → Rat) (cfg : Cfg)
-    (f : Nat → Rat → Rat) (its : Nat → List Rat) (brent : Nat → Rat) : Result :=
-  match (bisect1D counts E cfg).1 with
+/-- The composition the statements amount to (proved equal in Props/C01). -/
+def findDesignSpec (search : SearchRes α β) (minH maxH : Rat)
+    (f : α → Rat → Rat) (its : α → List Rat) (brent : α → Rat) : ResultG α β :=
+  match search with
   | .valueError => .valueError
   | .pyError e => .pyError e
   | .selected k h p =>
-    match size (f k) cfg.minH cfg.maxH (its k) (brent k) { H := h, simAt := none, returned := 0 } with
+    match size (f k) minH maxH (its k) (brent k) { H := h, simAt := none, returned := 0 } with
     | .error e => .pyError e
     | .ok st => .design { field := k, path := p, st := st }
+
+/-! ### The four searches as `SearchRes` -/
+
+def search1D (counts : List Nat) (E : Nat → Rat → Rat) (cfg : Cfg) : SearchRes Nat Path :=
+  match (bisect1D counts E cfg).1 with
+  | .selected k h p => .selected k h p
+  | .valueError => .valueError
+  | .pyError e => .pyError e
+
+def searchOf2 (o : Outcome2) : SearchRes (Nat × Nat) Unit :=
+  match o with
+  | .selected l k h => .selected (l, k) h ()
+  | .valueError => .valueError
+  | .pyError e => .pyError e
+
+/-- `Bisection2D` (bi-rectangle). -/
+def search2D (nc : List (List Nat)) (E2 : Nat → Nat → Rat → Rat) (cfg : Cfg) : SearchRes (Nat × Nat) Unit :=
+  searchOf2 (bisect2D nc E2 cfg).1
+
+/-- `BisectionZD` (bi-zoned and polygon-constrained): it returns with the GHE re-initialised at
+    maximum height (the per-list sized heights `sz` only rank the lists). -/
+def searchZD (nc : List (List Nat)) (E2 : Nat → Nat → Rat → Rat) (sz : Nat → Nat → Rat) (cfg : Cfg) :
+    SearchRes (Nat × Nat) Unit :=
+  match (bisectZD nc E2 sz cfg).1 with
+  | .selected l k _ => .selected (l, k) cfg.maxH ()
+  | .valueError => .valueError
+  | .pyError e => .pyError e
+
+/-- `RowWiseModifiedBisectionSearch`: the GHE of the returned field is initialised at maximum height. -/
+def searchRW (Es : Rat → Rat) (nb : Rat → Nat) (szs : Rat → Rat) (E1 : Rat) (Esub : Nat → Rat) (c : RWCfg) (maxH : Rat) :
+    SearchRes RWSel Bool :=
+  match (rowwiseSearch Es nb szs E1 Esub c).1 with
+  | .selected fld esc => .selected fld maxH esc
+  | .valueError => .valueError
+
+/-! ### The flat searches, as before -/
+
+abbrev Design := DesignG Nat Path
+abbrev Result := ResultG Nat Path
+
+def findDesign1D (counts : List Nat) (E : Nat → Rat → Rat) (cfg : Cfg)
+    (f : Nat → Rat → Rat) (its : Nat → List Rat) (brent : Nat → Rat) : Result :=
+  findDesignG (search1D counts E cfg) E cfg.minH cfg.maxH f its brent
 
 end GHEVerif.Pipeline
